@@ -61,7 +61,13 @@ func wantSource(s sg.Source) any {
 	case sg.SourceJSON:
 		return map[string]any{"$type": "*vs.VariableSourceJSON", "Name": s.Name, "File": wStr(s.File)}
 	}
-	return map[string]any{"$type": "*vs.VariableSourceVariables", "Name": s.Name, "Variables": wMap(s.Variables)}
+	vars := map[string]any{}
+	if s.Variables != nil {
+		for _, e := range *s.Variables {
+			vars[e.K] = s.TypedValue(e)
+		}
+	}
+	return map[string]any{"$type": "*vs.VariableSourceVariables", "Name": s.Name, "Variables": vars}
 }
 
 func wantPost(p sg.Postprocessor) any {
